@@ -41,7 +41,8 @@ def run_property(pid, tier, repo=None, write=True, quiet=False,
     if tier == 'thorough' and selftest and write:
         from . import mutants
         try:
-            ctx.selftest = mutants.selftest(pid, ctx)
+            ctx.selftest = mutants.selftest(
+                pid, ctx, consulted=set(repo.consulted))
         except Exception as e:
             ctx.note('self-test', 'could not run: %s: %s' % (
                 type(e).__name__, e))
